@@ -103,7 +103,7 @@ fn far_future_mtime(report: &mut Report) {
 /// Directed, real code + oracle only (no model run: the byte-list model is not meant for megabytes): sizes and
 /// shapes the random generator never reaches — files of several MiB around block-size multiples with default-like
 /// options, a 255-byte name, forty levels of nesting, a directory with 3000 entries.
-fn large_scale(seed: u64, report: &mut Report) {
+fn large_scale(seed: u64, defaults: bool, report: &mut Report) {
     let work = tempfile::tempdir().expect("tempdir");
     let (src, arch, dest) = (work.path().join("src"), work.path().join("arch"), work.path().join("dest"));
     std::fs::create_dir(&src).unwrap();
@@ -127,13 +127,23 @@ fn large_scale(seed: u64, report: &mut Report) {
     for i in 0..3000 {
         std::fs::write(wide.join(format!("w{i:04}")), if i % 7 == 0 { b"x".as_slice() } else { b"".as_slice() }).unwrap();
     }
+    // with the tool's DEFAULT options (20 MiB blocks, 1 MiB small-file cap, 100000 entries per hunk) on odd seeds:
+    // then also 36 files of 700 KiB, which the combiner packs into blocks a little ABOVE 20 MiB
+    if defaults {
+        let many = src.join("medium");
+        std::fs::create_dir(&many).unwrap();
+        for i in 0..36 {
+            std::fs::write(many.join(format!("m{i:02}")), data(700 * 1024)).unwrap();
+        }
+    }
     let obs = observe(&src);
     create_archive(&arch);
-    let p = BackupParams { max_entries_per_hunk: 1000, max_block_size: mib, small_file_cap: 65_536, owner: true, exclude: vec![] };
+    let p = if defaults { BackupParams { max_entries_per_hunk: 100_000, max_block_size: 20 << 20, small_file_cap: 1 << 20, owner: true, exclude: vec![] } } else { BackupParams { max_entries_per_hunk: 1000, max_block_size: mib, small_file_cap: 65_536, owner: true, exclude: vec![] } };
+    report.hit(if defaults { "directed:large-scale:default-options" } else { "directed:large-scale:1MiB-blocks" });
     let backup = real_backup(&arch, &src, &p, IceptConfig::default());
     let restore = real_restore(&arch, &dest, &RestoreParams { sel: Sel::Closed, subtree: None, exclude: vec![], overwrite: false }, IceptConfig::default());
     let restored = if dest.exists() { observe(&dest) } else { vec![] };
-    let case = json!({"op": "backup-restore", "directed": "large-scale: files of 2 MiB, 1 MiB+1, 3 MiB-1, 4 MiB+3 of zeros, 65537 B; a 255-byte name; 40 levels; a directory of 3000 entries", "options": {"max_entries_per_hunk": 1000, "max_block_size": mib, "small_file_cap": 65536}});
+    let case = json!({"op": "backup-restore", "directed": "large-scale: files of 2 MiB, 1 MiB+1, 3 MiB-1, 4 MiB+3 of zeros, 65537 B; a 255-byte name; 40 levels; a directory of 3000 entries", "options": {"max_entries_per_hunk": p.max_entries_per_hunk, "max_block_size": p.max_block_size, "small_file_cap": p.small_file_cap}, "plus_36_files_of_700KiB": defaults});
     report.case("large-scale", true);
     report.hit("directed:large-scale");
     if !backup.result.starts_with("result ok") || !backup.result.contains(" errors=0") || backup.events.iter().any(|e| e.starts_with("event error")) {
@@ -142,7 +152,7 @@ fn large_scale(seed: u64, report: &mut Report) {
         report.oracle_fail("restore-not-clean-large-scale", case, "restore crashed or reported errors", json!({"result": trunc(&restore.result), "events": restore.events.iter().take(3).collect::<Vec<_>>()}));
     } else if let Some(d) = tree_diff(&obs, &restored) {
         report.oracle_fail("restored-tree-differs-large-scale", case, "restored tree differs from the source tree", json!({"field": d["field"], "apath": d["apath"]}));
-    } else {
+    } else if !defaults {
         // and the format reader agrees with what was written (blocks named by their hash, addresses inside, sizes)
         let (state, _) = abstract_archive(&arch);
         for (sig, what) in crate::c13::format_violations(&state, &std::collections::BTreeMap::new()) {
@@ -154,7 +164,8 @@ fn large_scale(seed: u64, report: &mut Report) {
 pub fn run(tier: &str, seed: u64, report: &mut Report) {
     let thorough = tier == "thorough";
     far_future_mtime(report);
-    large_scale(seed, report);
+    large_scale(seed, false, report);
+    large_scale(seed, true, report);
     let n_cases = if thorough { 1500 } else { 120 };
     let mut session = Session::new();
     let mut pend: Vec<Pending> = Vec::new();
